@@ -172,7 +172,7 @@ Section SdlWf.
                     |eapply D_directives_wf; eassumption|discriminate].
     - repeat split; [discriminate|eapply D_description_wf; eassumption|apply tok_name; assumption| |
                      eapply D_directives_wf; eassumption| |discriminate].
-      + match goal with Hi : D_implements _ _ _ |- _ => destruct Hi as [|k lead tys0 tys Hw Hl Hs] end;
+      + match goal with Hi : D_implements _ _ _ |- _ => inversion Hi as [|k0 lead tys0 tys Hw Hl Hs]; subst end;
           [constructor|]. twf_split. eapply D_sep_named_wf; eassumption.
       + eapply D_opt_block_wf; [eassumption|apply D_field_def_wf|assumption].
     - repeat split; [discriminate|eapply D_description_wf; eassumption|apply tok_name; assumption
@@ -180,7 +180,7 @@ Section SdlWf.
       eapply D_opt_block_wf; [eassumption|apply D_field_def_wf|assumption].
     - repeat split; [discriminate|eapply D_description_wf; eassumption|apply tok_name; assumption
                     |eapply D_directives_wf; eassumption| |discriminate].
-      match goal with Hi : D_union_members _ _ _ |- _ => destruct Hi as [|eq lead tys0 tys Hw Hl Hs] end;
+      match goal with Hi : D_union_members _ _ _ |- _ => inversion Hi as [|eq0 lead lts0 tys1 Hw Hl Hs]; subst end;
         [constructor|]. twf_split. eapply D_sep_named_wf; eassumption.
     - repeat split; [discriminate|eapply D_description_wf; eassumption|apply tok_name; assumption
                     |eapply D_directives_wf; eassumption| |discriminate].
@@ -193,4 +193,91 @@ Section SdlWf.
       repeat split; [eapply D_description_wf; eassumption|apply tok_name; assumption| |assumption|assumption].
       eapply D_opt_block_wf; [eassumption|apply D_input_value_wf|assumption].
   Qed.
+
+  Lemma wfd_ext : wfd true None.
+  Proof. split; [reflexivity|exact I]. Qed.
+
+  Lemma tse_wf ts d : D_type_system_extension nl ts d -> twf ts -> wf_sdef d.
+  Proof.
+    intros H Ht. destruct H; twf_split; simpl.
+    - repeat split; [eapply D_directives_wf; eassumption| |assumption].
+      match goal with Ho : D_opt_op_types _ _ _ |- _ => inversion Ho as [|ts0 ots0 Hot]; subst end;
+        [constructor|]. eapply D_op_types_wf; eassumption.
+    - repeat split; [apply tok_name; assumption|eapply D_directives_wf; eassumption|auto].
+    - repeat split; [apply tok_name; assumption| |eapply D_directives_wf; eassumption| |auto].
+      + match goal with Hi : D_implements _ _ _ |- _ => inversion Hi as [|k0 lead lts0 tys1 Hw Hl Hs]; subst end;
+          [constructor|]. twf_split. eapply D_sep_named_wf; eassumption.
+      + eapply D_opt_block_wf; [eassumption|apply D_field_def_wf|assumption].
+    - repeat split; [apply tok_name; assumption|eapply D_directives_wf; eassumption| |auto].
+      eapply D_opt_block_wf; [eassumption|apply D_field_def_wf|assumption].
+    - repeat split; [apply tok_name; assumption|eapply D_directives_wf; eassumption| |auto].
+      match goal with Hi : D_union_members _ _ _ |- _ => inversion Hi as [|eq0 lead lts0 tys1 Hw Hl Hs]; subst end;
+        [constructor|]. twf_split. eapply D_sep_named_wf; eassumption.
+    - repeat split; [apply tok_name; assumption|eapply D_directives_wf; eassumption| |auto].
+      eapply D_opt_block_wf; [eassumption|apply D_enum_value_wf|assumption].
+    - repeat split; [apply tok_name; assumption|eapply D_directives_wf; eassumption| |auto].
+      eapply D_opt_block_wf; [eassumption|apply D_input_value_wf|assumption].
+  Qed.
+
+  (* every definition the grammar derives over lexer tokens is well-formed, up to
+     the guard on member descriptions *)
+  Lemma D_definition_fullwf fv en ts d :
+    D_definition nl fv en ts d -> twf ts -> member_desc_free d -> wf_fulldef fv d.
+  Proof.
+    intros H Ht Hm. destruct H as [ts d He|ts d _ Htd|ts d _ Hte].
+    - pose proof (D_executable_definition_wf nl fv ts d He Ht) as Hw.
+      destruct He as [ts d Hop|ts d Hfr]; [destruct Hop|destruct Hfr]; exact Hw.
+    - pose proof (tsd_wf ts d Htd Ht) as Hw. destruct Htd; split; assumption.
+    - pose proof (tse_wf ts d Hte Ht) as Hw. destruct Hte; split; assumption.
+  Qed.
+
+  Lemma D_document_fullwf fv en ts d :
+    D_document nl fv en ts d -> twf ts -> Forall member_desc_free (doc_defs d) -> wf_doc fv d.
+  Proof.
+    intros [sof body eof defs Ks Ke Hl Hne] Ht Hm. unfold wf_doc. simpl in *. split; [exact Hne|].
+    twf_split. match goal with Hb : twf body |- _ => revert Hb end. clear -Hl Hm.
+    induction Hl as [|ts x ts' xs Hx Hxs IH]; intros Hb; [constructor|].
+    inversion Hm; subst. apply Forall_app in Hb. destruct Hb as [Hb1 Hb2].
+    constructor; [eapply D_definition_fullwf; eassumption|apply IH; assumption].
+  Qed.
+
 End SdlWf.
+
+(* no descriptions on fields, arguments, input fields, enum values
+   (the complement of the open finding member-descriptions) *)
+Definition no_member_descriptions (d : document) : Prop := Forall member_desc_free (doc_defs d).
+
+Lemma member_desc_free_strip d : member_desc_free d -> True.
+Proof. trivial. Qed.
+
+(* Property C03 for complete documents: every document the parser accepts
+   (type-system definitions and extensions included) that carries no member
+   description, printed with any space / tab indent and parsed again with
+   locations off and type-system definitions allowed, comes back up to positions. *)
+Theorem roundtrip_document_closed fl fl' s d ind :
+  parse_document fl s = Ok d -> no_member_descriptions d -> all_ws ind ->
+  no_location fl' = true -> allow_type_system fl' = true ->
+  (fragment_variables fl = true -> fragment_variables fl' = true) ->
+  parse_document fl' (print_ast ind true d) = Ok (strip_doc d).
+Proof.
+  intros Hp Hm Hind Hnl Hts Hfv. apply sdl_roundtrip; try assumption.
+  destruct (parse_document_sound_full fl s d Hp) as (ts & Hl & Dd).
+  pose proof (D_document_fullwf _ _ _ _ _ Dd (lex_tok_wf s ts Hl) Hm) as [Hne Hwf].
+  split; [assumption|]. destruct (fragment_variables fl) eqn:E.
+  - rewrite (Hfv eq_refl). assumption.
+  - destruct (fragment_variables fl'); [|assumption].
+    apply Forall_forall. intros x Hx. rewrite Forall_forall in Hwf. specialize (Hwf x Hx).
+    destruct x; try exact Hwf; apply wf_def_mono; exact Hwf.
+Qed.
+
+Theorem idempotent_document_closed fl fl' s d d' ind :
+  parse_document fl s = Ok d -> no_member_descriptions d -> all_ws ind ->
+  no_location fl' = true -> allow_type_system fl' = true ->
+  (fragment_variables fl = true -> fragment_variables fl' = true) ->
+  parse_document fl' (print_ast ind true d) = Ok d' ->
+  print_ast ind true d' = print_ast ind true d.
+Proof.
+  intros Hp Hm Hind Hnl Hts Hfv Hp'.
+  rewrite (roundtrip_document_closed fl fl' s d ind Hp Hm Hind Hnl Hts Hfv) in Hp'.
+  inversion Hp'; subst. apply pr_document_strip.
+Qed.
